@@ -43,6 +43,10 @@ macro_rules! dispatch {
                 type $p = props::c10::C10;
                 $body
             }
+            "C11" => {
+                type $p = props::c11::C11;
+                $body
+            }
             "C17" => {
                 type $p = props::c17::C17;
                 $body
